@@ -103,3 +103,30 @@ Theorem C12_twosum_components_TU : forall m1 n1 M1 m2 n2 M2 r1 c2 M,
   tu_bf (m1 - 1 + m2) (n1 + (n2 - 1)) M = true -> tu_bf m1 n1 M1 = true /\ tu_bf m2 n2 M2 = true.
 Proof. exact TuTwoSum.tu_bf_twosum_row_col_conv. Qed.
 Print Assumptions C12_twosum_components_TU.
+
+(* ---------- the judge accepts EXACTLY the records that satisfy its specification: besides soundness (above) also completeness,
+   i.e. a record of a correct answer is never rejected (JudgeComplete2.v) ---------- *)
+From Cmr Require JudgeComplete2.
+Theorem C12_judge_kcompose_accepts_exactly_the_specification :
+    forall (rec : list Z) (kind p : Z) (m1 n1 : nat) (M1 : mat) (m2 n2 : nat) 
+    (M2 : mat) (fsr fsc ssr ssc : list nat) (rc : Z) (res : option (nat * nat * mat)) 
+    (rest : list Z),
+    KsumProofs.kcompose_input rec =
+    Some (kind, p, (m1, n1, M1), (m2, n2, M2), fsr, fsc, ssr, ssc, rc, res, rest) ->
+    KsumModel.judge_kcompose rec = 0%Z <->
+    JudgeComplete2.kcompose_spec kind p m1 n1 M1 m2 n2 M2 fsr fsc ssr ssc rc res.
+Proof. exact JudgeComplete2.judge_kcompose_iff. Qed.
+Print Assumptions C12_judge_kcompose_accepts_exactly_the_specification.
+Theorem C12_judge_kdecomp_accepts_exactly_the_specification :
+    forall (rec : list Z) (kind p : Z) (m n : nat) (M : mat) (ok : Z) (both : bool) 
+    (rc1 : Z) (X1 : option (nat * nat * mat)) (ro1 co1 : list Z) (fsr fsc : list nat) 
+    (rc2 : Z) (X2 : option (nat * nat * mat)) (ro2 co2 : list Z) (ssr ssc : list nat) 
+    (rcc : Z) (res : option (nat * nat * mat)) (rest : list Z),
+    KsumProofs.kdecomp_input rec =
+    Some
+    (kind, p, (m, n, M), ok, both, (rc1, X1, ro1, co1, fsr, fsc), (rc2, X2, ro2, co2, ssr, ssc), rcc,
+    res, rest) ->
+    KsumModel.judge_kdecomp rec = 0%Z <->
+    JudgeComplete2.kdecomp_spec kind p m n M ok both rc1 X1 ro1 co1 fsr fsc rc2 X2 ro2 co2 ssr ssc rcc res.
+Proof. exact JudgeComplete2.judge_kdecomp_iff. Qed.
+Print Assumptions C12_judge_kdecomp_accepts_exactly_the_specification.
